@@ -258,6 +258,13 @@ func (session *ClientCommandSession) runReadLoop() {
 				}
 				if isInterleaved {
 					session.observer.OnInterleavedPacket(packet, int(channel))
+				} else {
+					// readInterleaved left the byte in the reader: consume the message (a late or unsolicited
+					// response), otherwise this loop sees the same byte forever and never blocks again
+					if _, err := readHttpResponseMessage(r); err != nil {
+						loopErr = err
+						return
+					}
 				}
 			}
 		}
